@@ -163,10 +163,16 @@ macro_rules! array_contract_checks {
             /// returns a hash of the generated base inputs when they are non-empty (conservative distinctness key)
             pub fn random(ctx: &mut Ctx, r: &mut Rng, tag: &str) -> Option<u64> {
                 let p = |api: &str, clause: &str| format!("{}{}/{}/value/any", tag, api, clause);
-                let big = ctx.thorough && r.chance(1, 50);
-                let maxlen = if big { 200 } else { 6 };
+                // mostly tiny arrays; one case in eight uses lengths / values / run lengths up to 40, and the
+                // thorough tier occasionally goes to 200
+                let huge = ctx.thorough && r.chance(1, 50);
+                let big = huge || r.chance(1, 8);
+                let maxlen = if huge { 200 } else if big { 40 } else { 6 };
                 let n = r.small(maxlen);
-                let bound = r.range(1, 5);
+                let bound = if big { r.range(1, 40) } else { r.range(1, 5) };
+                if big {
+                    ctx.class("arrays_up_to_40");
+                }
                 let v: Vec<usize> = r.vec_below(n, bound);
                 let m = r.small(maxlen);
                 let u: Vec<usize> = r.vec_below(m, bound);
@@ -318,7 +324,10 @@ macro_rules! array_contract_checks {
                         if let Some(x) = call!(ctx, "arange", input, <Ix as NaturalArray<K>>::arange(&start, &stop)) {
                             ctx.check(x.0 == (start..stop).collect::<Vec<_>>(), &p("arange", "range"), || json!({"input": input, "observed": x.0}));
                         }
-                        let counts: Vec<usize> = r.vec_below(n, 4);
+                        let counts: Vec<usize> = r.vec_below(n, if big { 40 } else { 4 });
+                        if counts.iter().any(|&c| c > 16) {
+                            ctx.class("repeat_run_longer_than_16");
+                        }
                         if counts.contains(&0) {
                             ctx.class("repeat_count_0");
                         }
@@ -355,7 +364,7 @@ macro_rules! array_contract_checks {
                     }
                     7 => {
                         // segmented_sum: self = sizes
-                        let sizes: Vec<usize> = r.vec_below(n, 4);
+                        let sizes: Vec<usize> = r.vec_below(n, if big { 24 } else { 4 });
                         let total: usize = sizes.iter().sum();
                         let x: Vec<usize> = r.vec_below(total, 6);
                         let input = json!({"sizes": sizes, "x": x});
